@@ -9,7 +9,10 @@ Expressions are nested tuples (hashable):
   ("phi", (e..)) ("update", fname, e) ("mut", e, (callee..)) ("resume",) ("unknown", why)
 """
 import re
+import sys
 from collections import deque
+
+sys.setrecursionlimit(20000)
 
 STD_VARIANTS = {
     "std::option::Option": ["None", "Some"],
@@ -236,13 +239,14 @@ class Graph(object):
 class Analyzer(object):
     """Per-body analyses: definitions index, expression trees, guard classification."""
 
-    MAX_DEPTH = 80
+    MAX_DEPTH = 400
 
     def __init__(self, body, prog=None):
         self.body = body
         self.prog = prog
         self.defs = {}       # local -> list of (bb, idx or 'term', kind, place)
         self.mutborrows = {}  # local -> list of (bb, idx, tmp_local)
+        self.mem_writes = []  # assignments through a dereference: (bb, idx, stmt)
         self._memo = {}
         self._cell_off = False
         self._index()
@@ -253,11 +257,15 @@ class Analyzer(object):
                 continue
             for i, s in enumerate(b.stmts):
                 if s.kind in ("assign", "setdiscr"):
-                    self.defs.setdefault(s.place.local, []).append((b.idx, i, s))
+                    if "*" not in s.place.proj:
+                        # a write through a reference stored in the local defines the pointee, not the local
+                        self.defs.setdefault(s.place.local, []).append((b.idx, i, s))
+                    else:
+                        self.mem_writes.append((b.idx, i, s))
                     if s.kind == "assign" and s.rv.k in ("ref", "rawptr") and "Mut" in s.rv.j["bk"]:
                         self.mutborrows.setdefault(s.rv.place.local, []).append((b.idx, i, s))
             t = b.term
-            if t.kind == "call" and t.dest is not None:
+            if t.kind == "call" and t.dest is not None and "*" not in t.dest.proj:
                 self.defs.setdefault(t.dest.local, []).append((b.idx, "term", t))
             if t.kind == "yield":
                 p = t.j["resume_arg"]
@@ -381,7 +389,7 @@ class Analyzer(object):
             if clo[0] == "agg":
                 futs = None
                 for n, v in clo[2]:
-                    if n == "futures":
+                    if n.endswith("futures"):
                         futs = self.strip_refs(v)
                 if futs is not None and futs[0] == "agg":
                     fs = []
@@ -619,7 +627,7 @@ class Analyzer(object):
             body = self.body
             tmps = set()
             for bb, idx, s in mb:
-                if s.rv.place.proj and s.rv.place.proj[0] == "*":
+                if "*" in s.rv.place.proj:
                     continue  # reborrow through a reference held in `local`: not a mutation of local itself
                 if s.place.is_local():
                     tmps.add(s.place.local)
